@@ -92,6 +92,11 @@ Proof.
   apply wrank_kill.
 Qed.
 
+Lemma wsum_unhold c ws : wsum c (fun w => unhold (ws w)) = wsum c ws.
+Proof.
+  unfold wsum. apply sum_lt_ext. intros k _. destruct (ws k) as [|t i [r|]|h]; reflexivity.
+Qed.
+
 Definition irank (st : ist) (b : nat) : nat :=
   match st with
   | INotStarted | ILoop => 5 * b + 1
@@ -114,7 +119,7 @@ Definition mrank (p : mpc) : nat :=
   | MStopRes PBody _ => 35 | MJoinRes PBody _ => 34
   | MStopInfo PBody _ => 33 | MJoinInfo PBody _ => 32
   | MPurgeAcq => 31 | MPurgeIn => 30 | MKill => 29
-  | MExitPool _ => 20
+  | MExitPool _ => 21 | MFreeStore _ => 20
   | MStopRes PFin _ => 19 | MJoinRes PFin _ => 18
   | MStopInfo PFin _ => 17 | MJoinInfo PFin _ => 16
   | MUnproxyAcq => 15 | MUnproxyIn => 14 | MExitMgr _ => 13
@@ -173,7 +178,7 @@ Proof.
   all: dws; rew_ws; rew_futs;
        try match goal with ph : phase |- _ => destruct ph end;
        cbn [frank wrank irank rrank prank mrank cost kill isSome] in *;
-       try lia.
-  destruct j; lia.
+       rewrite ?wsum_unhold; try lia.
+  match goal with j : option nat |- _ => destruct j end; lia.
 Qed.
 
